@@ -455,9 +455,46 @@ def oracle_bits(args):
     return ''.join(T(b) for b in oracle_clauses(args))
 
 
+# ------------------------------------------------------------------ test serialisation of a configured build dir
+S5 = '\x05'
+
+
+def r_tintro(e):
+    """an intro-tests.json entry (dict) in the rendering of Entry.render_tintro (depends sorted)"""
+    return S1.join([enlist(S3, e['cmd']), enlist(S3, [k + S4 + v for k, v in e['env'].items()]), e['name'],
+                    enc_opt(e['workdir']), enc_opt(None if e['timeout'] is None else str(e['timeout'])), enlist(S3, e['suite']),
+                    T(e['is_parallel']), str(e['priority']), e['protocol'], enlist(S3, sorted(e['depends'])), enlist(S3, e['extra_paths'])])
+
+
+def enc_tser(t):
+    ops = []
+    for method, name, values, sep in t.env.envvars:
+        ops.append(S4.join([{'_set': 's', '_append': 'a', '_prepend': 'p'}[method.__name__], name, sep, enlist(S5, values)]))
+    return S1.join([t.name, enlist(S3, t.suite), enlist(S3, t.fname), enlist(S3, t.cmd_args), enc_opt(t.workdir),
+                    enc_opt(None if t.timeout is None else str(t.timeout)), T(t.is_parallel), str(t.priority), str(t.protocol),
+                    enlist(S3, sorted(t.depends)), enlist(S3, t.extra_paths), enlist(S3, sorted(t.env.unset_vars)), enlist(S3, ops)])
+
+
+def testser(bld):
+    """What `meson test` unpickles, next to what intro-tests.json says, from ONE configured build directory."""
+    from mesonbuild import mintro
+    out = {}
+    for kind, dat, intro in (('tests', 'meson_test_setup.dat', 'intro-tests.json'), ('benchmarks', 'meson_benchmark_setup.dat', 'intro-benchmarks.json')):
+        with open(os.path.join(bld, 'meson-private', dat), 'rb') as f:
+            objs = pickle.load(f)
+        with open(os.path.join(bld, 'meson-info', intro), encoding='utf-8') as f:
+            listed = json.load(f)
+        out[kind] = {'serialised': [enc_tser(t) for t in objs],
+                     'file': enlist(S2, [r_tintro(e) for e in listed]),
+                     'get_test_list': enlist(S2, [r_tintro(e) for e in mintro.get_test_list(objs)])}
+    return out
+
+
 def main():
     req = json.load(sys.stdin)
     out = {}
+    if 'testser' in req:
+        out['testser'] = testser(req['testser'])
     if 'cases' in req:
         out['results'] = [safe(fn, args) for fn, args in req['cases']]
     json.dump(out, sys.stdout)
